@@ -1,6 +1,7 @@
 import Seccomp.Model.Text
 import Seccomp.Model.Policy
 import Seccomp.Proofs.Lemmas.TextLemmas
+import Seccomp.Gen.Unpack
 /-!
 # C14 — text and configuration forms denote the same policy
 
@@ -50,19 +51,67 @@ theorem action_names_unique : NamesUnique Gen.actionNames := by decide
 theorem action_names_lowercase :
     ∀ e ∈ Gen.actionNames, ∀ r ∈ runes e.2, (97 ≤ r ∧ r ≤ 122) ∨ r = 95 := by decide
 
-/-- `Action.Unpack` lower-cases its argument and compares with the table entry as it is; its last statement
-    returns an error; its only store through the receiver is `*a = action` inside the loop -/
-theorem action_unpack_shape :
-    Gen.actionUnpackLowersInput = true ∧ Gen.actionUnpackLowersName = false ∧
-    Gen.actionUnpackComparisons = ["name == s"] ∧ Gen.actionUnpackTailIsError = true ∧
-    Gen.actionUnpackStoresInLoop = ["*a = action"] ∧ Gen.actionUnpackStoresOutside = [] := by decide
+/-- a loop whose body returns at the first entry that satisfies `P` (storing `F` of it) and otherwise
+    goes on with the state unchanged is a `find?` -/
+theorem forRange_find {κ ν α : Type} (body : κ → ν → Option α → UCtl α) (after : Option α → URes α)
+    (P : κ → ν → Bool) (F : κ → ν → α)
+    (h : ∀ k v st, body k v st = if P k v = true then UCtl.ret (some (F k v)) false else UCtl.next st) :
+    ∀ (es : List (κ × ν)) (st : Option α),
+      forRange body after es st =
+        match es.find? (fun e => P e.1 e.2) with
+        | some e => URes.done (some (F e.1 e.2)) false
+        | none => after st := by
+  intro es
+  induction es with
+  | nil => intro st; rfl
+  | cons e rest ih =>
+    intro st
+    obtain ⟨k, v⟩ := e
+    simp only [forRange, h, List.find?_cons]
+    by_cases hp : P k v = true
+    · simp [hp]
+    · have hp' : P k v = false := by simpa using hp
+      simp only [hp', Bool.false_eq_true, if_false]
+      exact ih st
 
-/-- `Operation.Unpack` lower-cases both sides; error at the end; only store `*o = name` inside the loop -/
-theorem operation_unpack_shape :
-    Gen.operationUnpackLowersInput = true ∧ Gen.operationUnpackLowersName = true ∧
-    Gen.operationUnpackRangeExpr = "Operations" ∧
-    Gen.operationUnpackComparisons = ["strings.ToLower(string(name)) == s"] ∧ Gen.operationUnpackTailIsError = true ∧
-    Gen.operationUnpackStoresInLoop = ["*o = name"] ∧ Gen.operationUnpackStoresOutside = [] := by decide
+/-- **Translator tie, `Action.Unpack`.**  The rendering of the function body regenerated from filter.go
+    (`Gen.actionUnpackSkel`: its statements, the `range` over the map as a loop over the entries in an
+    arbitrary iteration order) does, for every input and every order, what the reference does: it
+    lower-cases the input, compares it with each name as it stands, stores the first matching entry's
+    value and returns nil, or stores nothing and returns an error.  Proved by cases on whether an entry
+    matches, not on how the source arranges the test. -/
+theorem action_unpack_tie (order : List (Nat × String)) (rs : List Nat) :
+    Gen.actionUnpackSkel order rs = toURes (unpackWith order true false rs) := by
+  unfold Gen.actionUnpackSkel unpackWith
+  simp only []
+  rw [forRange_find _ _ (fun _ v => runes v == lower rs) (fun k _ => k)]
+  · simp only [if_true, Bool.false_eq_true, if_false]
+    cases order.find? (fun e => runes e.2 == lower rs) <;> simp [toURes]
+  · intro k v st
+    by_cases h : runes v = lower rs <;> simp [h]
+
+/-- **Translator tie, `Operation.Unpack`**: both sides of the comparison are lower-cased; the first member
+    of `Operations` that matches is stored. -/
+theorem operation_unpack_tie (ops : List String) (rs : List Nat) :
+    Gen.operationUnpackSkel ops rs = toURes (unpackOpWith ops true true rs) := by
+  unfold Gen.operationUnpackSkel unpackOpWith
+  simp only []
+  rw [forRange_find _ _ (fun _ v => lower (runes v) == lower rs) (fun _ v => v)]
+  · simp only [if_true]
+    induction ops with
+    | nil => simp [toURes]
+    | cons o rest ih =>
+      simp only [List.map_cons, List.find?_cons]
+      by_cases h : lower (runes o) = lower rs
+      · simp [h, toURes]
+      · have h' : (lower (runes o) == lower rs) = false := by simpa using h
+        simp only [h']
+        exact ih
+  · intro k v st
+    by_cases h : lower (runes v) = lower rs <;> simp [h]
+
+/-- the translator rendered every statement of both functions -/
+theorem unpack_rendered : Gen.unpackNotes = [] := by decide
 
 /-! ## actions -/
 
@@ -72,7 +121,6 @@ theorem operation_unpack_shape :
 theorem unpack_sound (rs : List Nat) (a : Nat) (h : unpackActionRunes rs = some a) :
     ∃ n, (a, n) ∈ Gen.actionNames ∧ runes n = lower rs := by
   unfold unpackActionRunes unpackWith at h
-  rw [action_unpack_shape.1, action_unpack_shape.2.1] at h
   simp only [if_true, Bool.false_eq_true, if_false, Option.map_eq_some_iff] at h
   obtain ⟨e, he, rfl⟩ := h
   exact ⟨e.2, List.mem_of_find?_eq_some he, by simpa using List.find?_some he⟩
@@ -93,7 +141,6 @@ theorem unpack_iff (rs : List Nat) (a : Nat) :
   · exact unpack_sound rs a
   · rintro ⟨n, hn, hr⟩
     unfold unpackActionRunes unpackWith
-    rw [action_unpack_shape.1, action_unpack_shape.2.1]
     simp only [if_true, Bool.false_eq_true, if_false]
     rw [find?_of_unique (a := (a, n)) hn (by simp [hr])]
     · rfl
@@ -202,7 +249,6 @@ theorem op_names_ascii : ∀ o ∈ Gen.operations, ∀ r ∈ runes o, r < 128 :=
 theorem op_unpack_sound (rs : List Nat) (o : String) (h : unpackOperationRunes rs = some o) :
     o ∈ Gen.operations ∧ lower (runes o) = lower rs := by
   unfold unpackOperationRunes unpackOpWith at h
-  rw [operation_unpack_shape.1, operation_unpack_shape.2.1] at h
   simp only [if_true] at h
   exact ⟨List.mem_of_find?_eq_some h, by simpa using List.find?_some h⟩
 
@@ -212,7 +258,6 @@ theorem op_unpack_iff (rs : List Nat) (o : String) :
   · exact op_unpack_sound rs o
   · rintro ⟨ho, hr⟩
     unfold unpackOperationRunes unpackOpWith
-    rw [operation_unpack_shape.1, operation_unpack_shape.2.1]
     simp only [if_true]
     apply find?_of_unique ho (by simp [hr])
     intro x hx y hy hpx hpy
